@@ -458,6 +458,11 @@ func (r *runner) afterTake() {
 		r.obs.Fault = "forwarder neither blocked in its own select nor gone " + watchdog.String() + " after it took an event"
 		return
 	}
+	if gone && !r.cancelled {
+		r.obs.Fault = fmt.Sprintf("the forwarding goroutine returned right after taking event %d (payload kind %d) although the context is live: the event produced no result (mistaken for the source closing?)", r.next-1, r.c.Events[r.next-1][0])
+		r.done = true
+		return
+	}
 	if gone {
 		// only possible when the context is done: it left through the ctx.Done branch of the send
 		r.act("observeCancel")
